@@ -2,15 +2,17 @@
    The composition theorems of C07_join.v carry hypotheses on internal values (no saturating cast reached, segment
    corners within +-2^29).  Here they are discharged from a bound on the coordinates and the stroke width:
 
-       range_ok V w  :=  0 <= w  /\  0 <= V  /\  V + 6 * w + 8 <= 322
+       range_ok V w  :=  0 <= w  /\  0 <= V  /\  V + 6 * w + 8 <= 8191
 
    with all vertices within +-V before and after the move.  (Every parallel of Line::extents starts within 6w+7 of the
    line - Proofs/ThicklineOverflow.v parallels_states_fit by the line builder -, so the four thick-line edges of a join
-   lie within +-322, where |rounded intersection| <= 16 * 322^3 < 2^29.)  E.g. a 240 x 240 display (coordinates
-   0..239) with stroke widths up to 12, or 128 x 64 / 160 x 128 displays with stroke widths up to 25.
+   lie within +-8191, and Proofs/JoinPointBound.v - the argument of the overflow builder's C08_join_point_bound with a larger
+   constant - bounds the USED join point by 536 748 040 < 2^29: the rounded intersection when nearly_colinear_has_error is
+   false, the edge end otherwise.)  E.g. coordinates within +-4096 with stroke widths up to 681, +-7000 with widths up to 197;
+   beyond about +-2^13 the i32 arithmetic of the code (not the unbounded model) is the limit anyway.
    Statements only; proofs in Proofs/JoinRange.v. *)
 From EG Require Import Base.Prelude Model.Geometry Model.Style Model.Line Model.Thickline Model.Join Model.JoinTri.
-From EG Require Import Proofs.Join Proofs.JoinTri Proofs.JoinRange.
+From EG Require Import Proofs.Join Proofs.JoinTri Proofs.JoinRange Proofs.JoinTotal.
 Set Default Timeout 60.
 
 (* Line::extents never fails (the model's fuel suffices) and stays within 6w+8 of the line *)
@@ -46,10 +48,29 @@ Theorem C07_join_triangle_bbox_translate_range : forall V d t w al, range_ok V w
   jt_styled_bounding_box (tr_tri d t) w al = option_map (fun bb => translate_rect bb d) (jt_styled_bounding_box t w al).
 Proof. exact jt_styled_bounding_box_tr_range. Qed.
 
-(* non-vacuity: the range contains a 240 x 240 display with stroke 12, and the triangle of finding l moved across both
+(* the (non-empty) styled bounding box of a thick polyline moves with the vertices *)
+Theorem C07_join_polyline_bbox_translate_range : forall V w d a b r, range_ok V w ->
+  Forall (within V) (a :: b :: r) -> Forall (within V) (map (tr_pt d) (a :: b :: r)) ->
+  poly_thick_bounding_box (map (tr_pt d) (a :: b :: r)) w =
+  option_map (fun bb => translate_rect bb d) (poly_thick_bounding_box (a :: b :: r) w).
+Proof. exact poly_thick_bounding_box_tr_range. Qed.
+
+(* totality: inside the range the model functions answer Some (None would mean: fuel of Line::extents exhausted), so the
+   equations above are not satisfied by None = option_map _ None *)
+Theorem C07_join_polyline_total_range : forall V w pts tr, range_ok V w -> Forall (within V) pts ->
+  (exists l, poly_thick_points pts tr w = Some l) /\ (exists rs, poly_thick_rects pts w = Some rs) /\
+  (exists bb, poly_thick_bounding_box pts w = Some bb).
+Proof. exact poly_total_range. Qed.
+
+Theorem C07_join_triangle_total_range : forall V w al fill t, range_ok V w -> tri_within V t ->
+  (exists px, jt_pixels t w al fill = Some px) /\ (exists dr, jt_draw t w al fill = Some dr) /\
+  (exists bb, jt_styled_bounding_box t w al = Some bb).
+Proof. exact tri_total_range. Qed.
+
+(* non-vacuity: the range contains +-4096 with stroke 681 and +-7000 with stroke 197, and the triangle of finding l moved across both
    axes is inside it *)
 Example C07_join_range_nonvacuous :
-  range_ok 239 12 /\ range_ok 160 25 /\
+  range_ok 4096 681 /\ range_ok 7000 197 /\
   tri_within 239 (P 0 0, P 3 1, P 3 9) /\ tri_within 239 (tr_tri (P 13 (-11)) (P 0 0, P 3 1, P 3 9)) /\
   option_map (@length (point * Z)) (jt_pixels (P 0 0, P 3 1, P 3 9) 4 Style.Center (Some 2)) = Some 85%nat.
 Proof.
